@@ -1,7 +1,7 @@
 #!/bin/bash
 # runs every property's thorough tier once (seed from $1, default 0), listing findings only
 SEED=${1:-0}
-for p in C15 C04 C16 C07 C08 C06 C05; do
+for p in ${PROPS:-C15 C04 C16 C07 C08 C06 C05}; do
   s=$(date +%s)
   out=$(VERIF_SEED=$SEED NSIM_LIST_SITES=1 ./check $p --tier thorough --no-minimise 2>&1)
   echo "$out" | grep "^SITE\|HARNESS\|VIOLATION\|^C[0-9][0-9]:" | cut -c1-600 | sed "s/^/$p /"
